@@ -1,4 +1,4 @@
-//! C19 on LONG runs (tens of thousands of simulator iterations), on the implementation only: the model run
+//! The simulator monitors (C15-C19; C19 by default) on LONG runs (tens of thousands of simulator iterations), on the implementation only: the model run
 //! is fuelled for 6000 iterations, and sizes matter to the code (pre-allocation estimates, window buffers).
 //! A perpetual padder and a periodic timer keep the simulation going after the one-packet trace is used up;
 //! the C19 monitor (same seed twice, time never backwards, bounds respected, the three filtered runs are the
@@ -24,7 +24,7 @@ fn looping(first: Event, again: Event, action: Action) -> Machine {
     Machine::new(u64::MAX, 0.0, u64::MAX, 0.0, vec![s0, s1]).unwrap()
 }
 
-pub fn run(seed: u64, n: usize, out: &str) {
+pub fn run(prop: &str, seed: u64, n: usize, out: &str) {
     std::fs::create_dir_all(out).unwrap();
     let mut meta = std::io::BufWriter::new(std::fs::File::create(format!("{}/meta.txt", out)).unwrap());
     let mut r = SplitMix64::new(seed ^ 0x1019);
@@ -41,8 +41,18 @@ pub fn run(seed: u64, n: usize, out: &str) {
         let echo = looping(Event::TunnelRecv, Event::PaddingSent, Action::SendPadding { bypass: false, replace: false, timeout: const_dist(*r.pick(&[4.0, 9.0])), limit: None });
         // bounds around 2^16 recorded events, and none
         let (max_trace, max_iter) = [(0usize, 70_000usize), (100_000, 80_000), (70_000, 90_000), (66_000, 120_000)][i % 4];
+        // a periodic blocker (re-arms on its own BlockingEnd), so that the long runs also exercise blocking
+        let blocker = looping(
+            Event::NormalSent,
+            Event::BlockingEnd,
+            Action::BlockOutgoing { bypass: r.chance(1, 2), replace: r.chance(1, 2), timeout: const_dist(*r.pick(&[2.0, 6.0])), duration: const_dist(*r.pick(&[3.0, 5.0, 11.0])), limit: None },
+        );
+        let mut mc = vec![padder, timer];
+        if i % 2 == 1 {
+            mc.push(blocker);
+        }
         let c = SimCase {
-            mc: vec![padder, timer],
+            mc,
             ms: if r.chance(1, 2) { vec![echo] } else { vec![] },
             fr: [1.0, 1.0, 1.0, 1.0],
             delay_ns: *r.pick(&[1_000u64, 10_000]),
@@ -56,7 +66,7 @@ pub fn run(seed: u64, n: usize, out: &str) {
             only_network: false,
             seed: r.next(),
         };
-        let found = crate::simprops::monitor("C19", &c);
+        let found = crate::simprops::monitor(prop, &c);
         let len = crate::sim::run_sim(&c).out.map(|t| t.len()).unwrap_or(0);
         sizes.push((max_trace, max_iter, len));
         for f in found.iter().filter(|f| f.known.is_none()).take(1) {
